@@ -60,7 +60,7 @@ def replay_cases(ctx: Ctx, recs: List[Dict[str, Any]]) -> None:
     import pfhedge.nn as nn
     tiny = [0.0, -0.0, 1e-30, 1e-300]       # (-0.0 is zero: e.g. -(t - T) at t = T)
     for rec in recs:
-        for K, mag, gap in itertools.product((0.5, 1.0, 2.0), (0.1, 1.0, 50.0), (0.05, 1.0)):
+        for K, mag, gap in itertools.product((0.5, 1.0, 2.0), (0.1, 1.0, 50.0, 2.0 ** -30), (0.05, 1.0)):      # (2^-30: next to the strike, not at it)
             s, m = concrete(rec, K, mag, gap)
             if rec["mabove"] and rec["mrel"] == "lt" and not (m < 0 and m > s):
                 continue
